@@ -508,9 +508,9 @@ def processLine (ln : Nat) (line : String) : M Unit := do
              if supMatches s (tokInt num) (tokInt den) (closed == "1") then ok ln
              else bad ln s!"query {qn}: library {num}/{den} closed={closed}, set dictates {supStr s}")
         | _ => skip ln "parse"
-      else if qn == "max" || qn == "min" then
+      else if qn == "max" || qn == "min" || qn == "maxp" || qn == "minp" then
         let (e, r) := parseExpr p.n rest
-        let s := if qn == "max" then p.sup e else p.inf e
+        let s := if qn == "max" || qn == "maxp" then p.sup e else p.inf e
         match r with
         | ["none"] =>
           (match s with
